@@ -320,3 +320,28 @@ def oracle_check(an, drv, rng, nenv, fuel=4000):
                 if ps is not None and len(ps) == 0:
                     viol.append(('C01', det, f"accepting dangerous execution (blocks {blocks}) but no path reported", (size, self_idx, txns)))
     return stats, viol
+
+
+def exact_envs(info, toks_text):
+    """exhaustive region enumeration for the direct-check family: every (size, index) the program can tell apart, every fee
+    representative, both values of the free operand"""
+    reads_size = 'GroupSize' in toks_text
+    reads_index = 'GroupIndex' in toks_text
+    reads_fee = ',Fee' in toks_text
+    sizes = list(range(1, 17)) if reads_size else [2, 3, 16]
+    fees = info.num_values(0, MAXU64, (0, 1000, MAXCOST, MAXCOST + 1, MAXU64)) if reads_fee else [1000, MAXCOST + 1]
+    out = []
+    for size in sizes:
+        idxs = list(range(size)) if (reads_index or reads_size) else sorted(set([0, size - 1]))
+        for idx in idxs:
+            for fee in fees:
+                for na in (0, 1):
+                    for gfee in (fees if 'gtxn,0,Fee' in toks_text else [1000]):
+                        txns = {}
+                        for i in set([idx, 0, 1]) & set(range(size)):
+                            txns[i] = {'Fee': fee if i == idx else gfee, 'NumAppArgs': na, 'Amount': 5, 'TypeEnum': 1, 'OnCompletion': 0, 'ApplicationID': 0,
+                                       'RekeyTo': 'ZERO', 'CloseRemainderTo': 'ZERO', 'AssetCloseTo': 'ZERO', 'Sender': 'CREATOR'}
+                        if idx == 0 and 'gtxn,0,Fee' in toks_text:
+                            txns[0]['Fee'] = fee
+                        out.append((size, idx, txns))
+    return out
